@@ -245,7 +245,11 @@ impl Normalizer for Sequence {
         for normalizer in &self.normalizers {
             let (next_normalized, mut next_offsets) = normalizer.normalize(&normalized)?;
             for offset in next_offsets.iter_mut() {
-                *offset = offsets[*offset];
+                // A normalizer can report the offset `normalized.len()`, eg.
+                // `Replace` with a pattern that matches the empty string at
+                // the end of its input. That position corresponds to the end
+                // of the source text.
+                *offset = offsets.get(*offset).copied().unwrap_or(text.len());
             }
             normalized = next_normalized;
             offsets = next_offsets;
